@@ -111,6 +111,268 @@ impl FixtureDatabase {
     ensures r.remaining() == all_params(*args).as_ref(),
 @*/
 
+/*@ extract src/fixtures/analyzer.rs visit_stmt
+@tags C03 C06 C15 C12
+@recv mut
+@wrapexpr 1 `ann_assign.value.as_deref()` => `Self::vp_ann_value(ann_assign)` with fn vp_ann_value(ann_assign: &rustpython_parser::ast::StmtAnnAssign) -> (r: Option<&Expr>) ensures opt_deref(r) == opt_unbox(ann_assign.value)
+@wrapexpr 1 `file_path.to_string_lossy().contains("site-packages") || self.is_editable_install_third_party(file_path)` => `self.vp_is_third_party(file_path)` with fn vp_is_third_party(&self, file_path: &PathBuf) -> (r: bool) ensures r == env_third_party(pbv(file_path))
+@wrapexpr 1 `self.plugin_fixture_files.contains_key(file_path)` => `self.vp_is_plugin(file_path)` with fn vp_is_plugin(&self, file_path: &PathBuf) -> (r: bool) ensures r == env_is_plugin(pbv(file_path))
+@wrapexpr 1 `func_name.starts_with("test_")` => `Self::vp_is_test_name(func_name)` with fn vp_is_test_name(func_name: &str) -> (r: bool) ensures r == is_test_name(func_name@)
+@replace 1 `Self::all_args(args)` => `Self::vp_all_args(args)`
+@replace 2 `Self::all_args(args)` => `Self::vp_all_args(args)`
+@replace 3 `Self::all_args(args)` => `Self::vp_all_args(args)`
+@closure any:1 |target: &Expr| -> (b: bool) ensures b == is_pytestmark_name(*target)
+@closure find:1 |dec: &&Expr| -> (b: bool) ensures b == spec_is_fixture_decorator(*dec)
+@closure unwrap_or_else:1 || -> (s: String) ensures s@ == func_name@
+@sig
+    requires is_line_index(ints(line_index@)), visit_pre(*stmt, line_index@),
+    ensures
+        rec_rel(*old(self), *final(self), visit_defs(*stmt, pbv(file_path), content@, line_index@), visit_uses(*stmt, pbv(file_path), content@, line_index@), pbv(file_path)),
+        final(self).defs() == push_defs(old(self).defs(), visit_defs(*stmt, pbv(file_path), content@, line_index@)),
+        final(self).fdefs() == add_fdefs(old(self).fdefs(), visit_defs(*stmt, pbv(file_path), content@, line_index@)),
+        final(self).uses() == push_uses(old(self).uses(), visit_uses(*stmt, pbv(file_path), content@, line_index@)),
+        final(self).byfix() == push_byfix(old(self).byfix(), visit_uses(*stmt, pbv(file_path), content@, line_index@)),
+        final(self).version() == bumpn(old(self).version(), visit_defs(*stmt, pbv(file_path), content@, line_index@).len() as int),
+        final(self).file_cache == old(self).file_cache,
+        final(self).imports == old(self).imports,
+        undecl_frame(old(self).undeclared_fixtures.m(), final(self).undeclared_fixtures.m(), pbv(file_path)),
+    decreases stmt,
+@start
+    let ghost f = pbv(file_path);
+    let ghost li = line_index@;
+    let ghost src = content@;
+    let ghost mut du: Seq<DefV> = Seq::empty();
+    let ghost mut uu: Seq<UseV> = Seq::empty();
+    proof { lemma_rec_refl(*old(self), f); }
+@before visit_assignment_fixture 1
+    let ghost s0 = *self;
+@after visit_assignment_fixture 1
+    proof {
+        lemma_rec_trans(*old(self), s0, *self, du, uu, assign_defs(*assign, f, li), Seq::empty(), f);
+        assert(du + assign_defs(*assign, f, li) =~= assign_defs(*assign, f, li));
+        assert(uu + Seq::<UseV>::empty() =~= uu);
+        du = assign_defs(*assign, f, li);
+    }
+@after is_pytestmark 1
+    proof {
+        let ts = assign.targets@;
+        if !is_pytestmark {
+            assert forall|i: int| 0 <= i < ts.len() implies !is_pytestmark_name(#[trigger] ts[i]) by { let y = ts.as_ref()[i]; }
+        }
+        assert(is_pytestmark == has_pytestmark_target(ts));
+    }
+@before visit_pytestmark_assignment 1
+    let ghost s0 = *self;
+@after visit_pytestmark_assignment 1
+    proof {
+        let u2 = pytestmark_uses(Some(*assign.value), f, li);
+        lemma_rec_trans(*old(self), s0, *self, du, uu, Seq::empty(), u2, f);
+        assert(du + Seq::<DefV>::empty() =~= du);
+        assert(uu + u2 =~= u2);
+        uu = u2;
+    }
+@before ann_assign 1
+    proof {
+        assert(match *stmt {
+            Stmt::Assign(a) => du == assign_defs(a, f, li) && uu == assign_uses(a, f, li),
+            _ => du =~= Seq::<DefV>::empty() && uu =~= Seq::<UseV>::empty(),
+        });
+    }
+@before visit_pytestmark_assignment 2
+    let ghost s0 = *self;
+@after visit_pytestmark_assignment 2
+    proof {
+        let u2 = pytestmark_uses(opt_unbox(ann_assign.value), f, li);
+        lemma_rec_trans(*old(self), s0, *self, du, uu, Seq::empty(), u2, f);
+        assert(du + Seq::<DefV>::empty() =~= du);
+        assert(uu + u2 =~= u2);
+        uu = u2;
+    }
+@before class_def 1
+    proof {
+        assert(match *stmt {
+            Stmt::Assign(a) => du == assign_defs(a, f, li) && uu == assign_uses(a, f, li),
+            Stmt::AnnAssign(a) => du =~= Seq::<DefV>::empty() && uu == annassign_uses(a, f, li),
+            _ => du =~= Seq::<DefV>::empty() && uu =~= Seq::<UseV>::empty(),
+        });
+    }
+@before for 1
+    let ghost cds = class_def.decorator_list@;
+    let ghost cb = class_def.body@;
+    proof { assert(*stmt == Stmt::ClassDef(*class_def)); }
+@loopvar 1 it1
+@loop 1
+    invariant f == pbv(file_path), li == line_index@, is_line_index(ints(li)),
+        cds == class_def.decorator_list@, it1.seq() == cds.as_ref(), decos_ok(cds, 0, li),
+        du =~= Seq::<DefV>::empty(),
+        uu == decos_uses(cds, it1.index@ as int, 0, f, li),
+        rec_rel(*old(self), *self, du, uu, f),
+@loopstart 1
+    let ghost j = it1.index@ as int;
+    let ghost uj = uu;
+    proof { assert(*decorator == cds[j]); }
+@after usefixtures 1
+    let ghost ps = lpairs_v(usefixtures@);
+    proof {
+        lemma_usefix_post(decorator, usefixtures@);
+        assert(ps == deco_lits(cds[j], 0));
+        assert(lits_ok(ps, li));
+        assert(uj + lit_uses(ps.take(0), f, li, false) =~= uj);
+    }
+@loopvar 2 it2
+@loop 2
+    invariant f == pbv(file_path), li == line_index@, is_line_index(ints(li)),
+        ps == lpairs_v(it2.seq()), lits_ok(ps, li),
+        du =~= Seq::<DefV>::empty(),
+        uu == uj + lit_uses(ps.take(it2.index@ as int), f, li, false),
+        rec_rel(*old(self), *self, du, uu, f),
+@before record_fixture_usage 1
+    let ghost s1 = *self;
+    let ghost i = it2.index@ as int;
+    let ghost x = lit_use(ps[i], f, li);
+    proof { assert(ps[i] == (fixture_name@, range)); }
+@after record_fixture_usage 1
+    proof {
+        lemma_rec_use(*old(self), s1, *self, du, uu, x, f);
+        assert(ps.take(i + 1).map_values(lit_use_fn(f, li, false)) =~= ps.take(i).map_values(lit_use_fn(f, li, false)).push(x));
+        assert((uj + lit_uses(ps.take(i), f, li, false)).push(x) =~= uj + lit_uses(ps.take(i + 1), f, li, false));
+        uu = uu.push(x);
+    }
+@loopend 1
+    proof { assert(ps.take(ps.len() as int) =~= ps); }
+@before for 3
+    let ghost uc = uu;
+    proof { assert(uc == decos_uses(cds, cds.len() as int, 0, f, li)); assert(uc + Seq::<UseV>::empty() =~= uc); }
+@loopvar 3 it3
+@loop 3
+    invariant f == pbv(file_path), li == line_index@, src == content@, is_line_index(ints(li)),
+        cb == class_def.body@, it3.seq() == cb.as_ref(), *stmt == Stmt::ClassDef(*class_def),
+        body_pre(cb, cb.len() as int, li),
+        du == body_defs(cb, it3.index@ as int, f, src, li),
+        uu == uc + body_uses(cb, it3.index@ as int, f, src, li),
+        rec_rel(*old(self), *self, du, uu, f),
+@loopstart 3
+    let ghost k = it3.index@ as int;
+    let ghost s0 = *self;
+    proof {
+        assert(*class_stmt == cb[k]);
+        assert(decreases_to!(class_def.body => class_def.body@[k]));
+        assert(match *stmt { Stmt::ClassDef(c) => c == *class_def, _ => false });
+        lemma_body_pre_at(cb, cb.len() as int, k, li);
+    }
+@loopend 3
+    proof {
+        let d2 = visit_defs(cb[k], f, src, li);
+        let u2 = visit_uses(cb[k], f, src, li);
+        lemma_rec_trans(*old(self), s0, *self, du, uu, d2, u2, f);
+        assert((uc + body_uses(cb, k, f, src, li)) + u2 =~= uc + body_uses(cb, k + 1, f, src, li));
+        du = du + d2;
+        uu = uu + u2;
+    }
+@after for 3
+    proof { reveal(rec_rel); }
+@return 2
+    reveal(rec_rel);
+@before for 4
+    let ghost fv = FnV { name: func_name@, decos: decorator_list@, args: **args, range: range, body: body@, returns: *returns };
+    let ghost ds = decorator_list@;
+    let ghost aps = all_params(**args);
+    proof {
+        assert(fn_view(*stmt) == Some(fv));
+        assert(du =~= Seq::<DefV>::empty() && uu =~= Seq::<UseV>::empty());
+        assert(decos_ok(ds, 0, li) && decos_ok(ds, 1, li));
+    }
+@loopvar 4 it4
+@loop 4
+    invariant f == pbv(file_path), li == line_index@, is_line_index(ints(li)),
+        ds == decorator_list@, it4.seq() == ds.as_ref(), decos_ok(ds, 0, li),
+        du =~= Seq::<DefV>::empty(),
+        uu == decos_uses(ds, it4.index@ as int, 0, f, li),
+        rec_rel(*old(self), *self, du, uu, f),
+@loopstart 4
+    let ghost j = it4.index@ as int;
+    let ghost uj = uu;
+    proof { assert(*decorator == ds[j]); }
+@after usefixtures 3
+    let ghost ps = lpairs_v(usefixtures@);
+    proof {
+        lemma_usefix_post(decorator, usefixtures@);
+        assert(ps == deco_lits(ds[j], 0));
+        assert(lits_ok(ps, li));
+        assert(uj + lit_uses(ps.take(0), f, li, false) =~= uj);
+    }
+@loopvar 5 it5
+@loop 5
+    invariant f == pbv(file_path), li == line_index@, is_line_index(ints(li)),
+        ps == lpairs_v(it5.seq()), lits_ok(ps, li),
+        du =~= Seq::<DefV>::empty(),
+        uu == uj + lit_uses(ps.take(it5.index@ as int), f, li, false),
+        rec_rel(*old(self), *self, du, uu, f),
+@before record_fixture_usage 2
+    let ghost s1 = *self;
+    let ghost i = it5.index@ as int;
+    let ghost x = lit_use(ps[i], f, li);
+    proof { assert(ps[i] == (fixture_name@, range)); }
+@after record_fixture_usage 2
+    proof {
+        lemma_rec_use(*old(self), s1, *self, du, uu, x, f);
+        assert(ps.take(i + 1).map_values(lit_use_fn(f, li, false)) =~= ps.take(i).map_values(lit_use_fn(f, li, false)).push(x));
+        assert((uj + lit_uses(ps.take(i), f, li, false)).push(x) =~= uj + lit_uses(ps.take(i + 1), f, li, false));
+        uu = uu.push(x);
+    }
+@loopend 4
+    proof { assert(ps.take(ps.len() as int) =~= ps); }
+@before for 6
+    let ghost ua = uu;
+    proof { assert(ua == decos_uses(ds, ds.len() as int, 0, f, li)); assert(ua + Seq::<UseV>::empty() =~= ua); }
+@loopvar 6 it6
+@loop 6
+    invariant f == pbv(file_path), li == line_index@, is_line_index(ints(li)),
+        ds == decorator_list@, it6.seq() == ds.as_ref(), decos_ok(ds, 1, li),
+        du =~= Seq::<DefV>::empty(),
+        uu == ua + decos_uses(ds, it6.index@ as int, 1, f, li),
+        rec_rel(*old(self), *self, du, uu, f),
+@loopstart 6
+    let ghost j = it6.index@ as int;
+    let ghost uj = uu;
+    proof { assert(*decorator == ds[j]); }
+@after indirect_fixtures 1
+    let ghost ps = lpairs_v(indirect_fixtures@);
+    proof {
+        lemma_param_post(decorator, indirect_fixtures@);
+        assert(ps == deco_lits(ds[j], 1));
+        assert(lits_ok(ps, li));
+        assert(uj + lit_uses(ps.take(0), f, li, false) =~= uj);
+    }
+@loopvar 7 it7
+@loop 7
+    invariant f == pbv(file_path), li == line_index@, is_line_index(ints(li)),
+        ps == lpairs_v(it7.seq()), lits_ok(ps, li),
+        du =~= Seq::<DefV>::empty(),
+        uu == uj + lit_uses(ps.take(it7.index@ as int), f, li, false),
+        rec_rel(*old(self), *self, du, uu, f),
+@before record_fixture_usage 3
+    let ghost s1 = *self;
+    let ghost i = it7.index@ as int;
+    let ghost x = lit_use(ps[i], f, li);
+    proof { assert(ps[i] == (fixture_name@, range)); }
+@after record_fixture_usage 3
+    proof {
+        lemma_rec_use(*old(self), s1, *self, du, uu, x, f);
+        assert(ps.take(i + 1).map_values(lit_use_fn(f, li, false)) =~= ps.take(i).map_values(lit_use_fn(f, li, false)).push(x));
+        assert((uj + lit_uses(ps.take(i), f, li, false)).push(x) =~= uj + lit_uses(ps.take(i + 1), f, li, false));
+        uu = uu.push(x);
+    }
+@loopend 6
+    proof {
+        assert(ps.take(ps.len() as int) =~= ps);
+        assert((ua + decos_uses(ds, j, 1, f, li)) + lit_uses(ps, f, li, false) =~= ua + decos_uses(ds, j + 1, 1, f, li));
+    }
+@before fixture_decorator 1
+    let ghost ub = uu;
+    proof { assert(ub == ua + decos_uses(ds, ds.len() as int, 1, f, li)); }
+@*/
+
 /*@ extract src/fixtures/analyzer.rs visit_assignment_fixture
 @tags C03 C06 C15 C12
 @recv mut
